@@ -1,5 +1,5 @@
 // driver TU for C06: no logic, only pulls the real translation unit in and forces the template instantiations
-#include "/repo/src/babylon/reusable/memory_resource.cpp"
+#include "babylon/reusable/memory_resource.cpp"
 namespace babylon_vf {
 void* force_allocate_8(::babylon::ExclusiveMonotonicBufferResource& r, size_t n) { return r.allocate<8>(n); }
 void* force_allocate(::babylon::ExclusiveMonotonicBufferResource& r, size_t n, size_t a) { return r.allocate(n, a); }
